@@ -2403,12 +2403,15 @@ class XonshParser(Parser):
         return None
 
     def proc_cmd(self) -> Any | None:
-        # proc_cmd: sub_procs | '@(' ~ (bare_genexp | expressions) ')' | '@$(' ~ proc_cmds ')' | env_atom | help_atom | search_path | proc_macro_start ~ ((cmd_group | any_cmd))* | cmd_group | cmd_name
+        # proc_cmd: &('$(' | '$[' | '![' | '!(') ~ sub_procs | '@(' ~ (bare_genexp | expressions) ')' | '@$(' ~ proc_cmds ')' | env_atom | help_atom | search_path | proc_macro_start ~ ((cmd_group | any_cmd))* | cmd_group | cmd_name
         mark = self._mark()
         _lnum, _col = self._tokenizer.peek().start
-        if sub_procs := self.sub_procs():
+        cut = False
+        if (self.positive_lookahead(self._tmp_34)) and (cut := True) and (sub_procs := self.sub_procs()):
             return sub_procs
         self._reset(mark)
+        if cut:
+            return None
         cut = False
         if (self.expect("@(")) and (cut := True) and (a := self._tmp_36()) and (self.expect(")")):
             return self.proc_pyexpr(a, **self.span(_lnum, _col))
